@@ -67,7 +67,8 @@ def gen_script(rnd, long=False):
                                            "unreachable", "gaierror"]),
                         rnd.choice([0.0, 0.3, 2.5])])
         elif c < 0.89:
-            ops.append(["on_connect_send", rnd.choice(S.KINDS), rnd.choice(["idem", "long"])])
+            ops.append([rnd.choice(["on_connect_send", "on_connect_send", "on_disconnect_send"]),
+                        rnd.choice(S.KINDS), rnd.choice(["idem", "long"])])
         elif c < 0.93:
             ops.append(["stall"])
             for _ in range(rnd.randint(1, 3)):
